@@ -373,6 +373,12 @@ class ReplaceMatch(ast.NodeTransformer):
         cases = []
         default_body = None
 
+        if any(c.guard for c in node.cases):
+            # when the guard of a matching case fails Python tries the following
+            # cases (also the default one), a Verilog case statement would stop at
+            # the first matching label: emit an if / else if chain instead
+            return self.guardedMatchAsIfChain(node, subject)
+
         for c in node.cases:
             # Visit the body first
             body = [self.visit(stmt) for stmt in c.body]
@@ -397,6 +403,33 @@ class ReplaceMatch(ast.NodeTransformer):
                 raise NotImplementedError(f"Unsupported match pattern: {ast.dump(c.pattern)}")
 
         return VerilogCase(subject, cases, default_body)
+
+    def guardedMatchAsIfChain(self, node, subject):
+        import copy
+        chain = []
+
+        for c in reversed(node.cases):
+            body = [self.visit(stmt) for stmt in c.body]
+
+            if isinstance(c.pattern, ast.MatchAs) and c.pattern.name is None:
+                cond = None
+            elif isinstance(c.pattern, ast.MatchValue):
+                cond = ast.Compare(left=copy.deepcopy(subject), ops=[ast.Eq()], comparators=[self.visit(c.pattern.value)])
+            else:
+                raise NotImplementedError(f"Unsupported match pattern: {ast.dump(c.pattern)}")
+
+            if c.guard:
+                guard = self.visit(c.guard)
+                cond = guard if cond is None else ast.BoolOp(op=ast.And(), values=[cond, guard])
+
+            if cond is None:
+                chain = body
+            else:
+                chain = [VerilogIf(cond, body, chain)]
+
+        if (len(chain) == 1):
+            return chain[0]
+        return chain
 
 class RemovePrints(ast.NodeTransformer):
         
